@@ -204,3 +204,69 @@ def runner_fold(prog, repetitions, flags=None, seed=77):
     if isinstance(r, tuple):
         raise Unknown(str(r))
     return r, events
+
+
+def registry_fold(prog, tests, flags=(0, 0)):
+    """Fold TestRegistry::runAllTests over a model list of tests. tests: list of (group, selected). flags:
+    (runInSeperateProcess_, runIgnored_). Every UtestShell / TestResult method is a recording stub; every
+    TestRegistry member the loop calls is inlined, so helpers are transparent. Returns (event log, env after)."""
+    from cpv.ceval import Evaluator
+    from .common import string_hooks
+    rt = prog.fn("TestRegistry::runAllTests")
+    addr = [1000 + 100 * i for i in range(len(tests))]
+    idx = {a: i for i, a in enumerate(addr)}
+    log = []
+
+    def rec(name, arg_is_test=True):
+        def h(*a_):
+            ts_ = [idx[x] for x in a_ if isinstance(x, int) and x in idx]
+            log.append((name,) + tuple(ts_[:1]))
+            return 0
+        return h
+    hooks = {}
+    for m in ("testsStarted", "testsEnded", "currentGroupStarted", "currentGroupEnded", "currentTestStarted", "currentTestEnded", "countTest", "countFilteredOut", "countRun", "countIgnored", "countCheck"):
+        hooks["TestResult::" + m] = rec(m)
+    for m in ("runOneTest", "setRunInSeperateProcess", "setRunIgnored"):
+        hooks["UtestShell::" + m] = rec(m)
+    hooks["UtestShell::getNext"] = lambda o, *a_: (addr[idx[o] + 1] if idx.get(o, len(addr)) + 1 < len(addr) else 0) if o in idx else None
+    hooks["UtestShell::getGroup"] = lambda o, *a_: ("str", tests[idx[o]][0]) if o in idx else None
+
+    def should_run(o, *a_):
+        if o not in idx:
+            return None
+        log.append(("shouldRun", idx[o]) + tuple(x for x in a_ if isinstance(x, int)))
+        return 1 if tests[idx[o]][1] else 0
+    hooks["UtestShell::shouldRun"] = should_run
+    env = {"this": 50, "tests_": addr[0] if addr else 0, "runInSeperateProcess_": flags[0], "runIgnored_": flags[1], "firstPlugin_": 70,
+           "groupFilters_": 81, "nameFilters_": 82, "currentRepetition_": 3, rt.params[0]["name"]: 60}
+    ev = Evaluator(prog, rt, env=env, calls=string_hooks(hooks))
+    ev.heap_mode = True
+    ev.pass_object = True
+    ev.inline = {g.qn for g in prog.functions.values() if g.qn.startswith("TestRegistry::") and g.qn != rt.qn}
+    ev.run_blocks(rt.entry, max_steps=20000)
+    return log, ev.env
+
+
+def registry_reference(tests, flags=(0, 0)):
+    """what the property demands of one run over the list: every test counted once and either run once between
+    its start/end notifications or counted as filtered out; one group start before the first test of each
+    maximal run of equal group names and one group end after its last"""
+    out = [("testsStarted",)]
+    for i, (g, sel) in enumerate(tests):
+        first = i == 0 or tests[i - 1][0] != g
+        last = i + 1 == len(tests) or tests[i + 1][0] != g
+        if flags[0]:
+            out.append(("setRunInSeperateProcess", i))
+        if flags[1]:
+            out.append(("setRunIgnored", i))
+        if first:
+            out.append(("currentGroupStarted", i))
+        out.append(("countTest",))
+        if sel:
+            out += [("currentTestStarted", i), ("runOneTest", i), ("currentTestEnded", i)]
+        else:
+            out.append(("countFilteredOut",))
+        if last:
+            out.append(("currentGroupEnded", i))
+    out.append(("testsEnded",))
+    return out
